@@ -1417,6 +1417,11 @@ class Gen:
         lead = self.lead()
         txt = ("sc" if source else "fc") + str(num) + self.text(5)
         self.hit("SC" if source else "FC")
+        for _ in range(self.rng.choice([0, 0, 0, 1, 2])):
+            # the comment goes on on continuation lines; its text is free
+            txt += NL + " " * self.rng.choice([5, 5, 6, 9]) + self.rng.choice(
+                ["(n,g) rate = 5%", "total: 3 cells", "flux in the fuel", "1 2 3 $ not a comment", "it's"]) + self.text(2)
+            self.hit("FC/SC:continuation-line")
         self.emit([("X", txt)])
         return ["text", lead, source, txt]
 
@@ -1580,7 +1585,7 @@ def gen_problem(rng, wild=0.0, size=None, tame=False, width=128):
             sh = fn()
             if hash_in_columns_1_5(sh):
                 continue         # that would be MCNP's vertical input format: not a sentence of G_core
-            if max(len(l) for l in render(sh).split(NL)) > width:
+            if max(len(l.expandtabs(8)) for l in render(sh).split(NL)) > width:
                 continue         # lines never exceed the limit of the version under test
             fallback = sh
             if not tame or not any(known_feature(t) for t in features(sh)):
@@ -2015,6 +2020,7 @@ def simplify_pads(sh):
 # every alternative of DESIGN.md 5.2 / 5.3 that the generator counts (Gen.hit); the evidence lists the ones a run
 # did not exercise
 ALTERNATIVES = [
+    'FC/SC:continuation-line',
     'NL:I-ends-at-zero',
     'DS:no-option', 'DS:option-A', 'DS:option-C', 'DS:option-D', 'DS:option-H', 'DS:option-L', 'DS:option-S',
     'DS:option-V', 'EQ:=', 'EQ:blank', 'EQ:blank=blank', 'F:modifier-*', 'F:modifier-+', 'F:modifier-none', 'FC',
